@@ -35,6 +35,12 @@ CORRUPT = {
                                                  lambda e, _: e.update(d=[1, 2]), ["SingleAssignment"]),
     "repeat_outcome": lambda ev: _corrupt(ev, lambda e: e.get("ev") == "Run" and e.get("how") == "inproc2",
                                           lambda e, _: e.update(ok=not e["ok"]), ["SingleAssignment"]),
+    "pool_digest": lambda ev: _corrupt(ev, lambda e: e.get("ev") == "Run" and e.get("how") == "pool4",
+                                       lambda e, _: e.update(d=[e["d"][0], e["d"][1] ^ 1]), ["SingleAssignment@pool"]),
+    "pool_outcome": lambda ev: _corrupt(ev, lambda e: e.get("ev") == "Run" and e.get("how") == "pool7",
+                                        lambda e, _: e.update(ok=not e["ok"]), ["SingleAssignment@pool"]),
+    "rebuild_digest": lambda ev: _corrupt(ev, lambda e: e.get("ev") == "Run" and e.get("how") == "build5",
+                                          lambda e, _: e.update(d=[e["d"][0] ^ 1, e["d"][1]]), ["SingleAssignment@build"]),
     "element_result": lambda ev: _corrupt(ev, _okpar, _set_elem(0, 0, [1, 2]), ["ElemSerial"]),
     "element_input": lambda ev: _corrupt(ev, _okpar, _set_elem(1, 1, [1, 2]), ["InputsUntouched"]),
     "element_not_walked": lambda ev: _corrupt(ev, _okpar, _untouch_first, ["AllWalked"]),
@@ -48,7 +54,11 @@ CORRUPT = {
 
 
 def nontrivial(d):
-    # a batch with at least two elements, or any whole-pipeline input
+    # a batch with at least two elements, a consist / train with at least three parts, or any whole-pipeline input
+    if d.get("kind") == "consist":
+        return d.get("n", 0) >= 3
+    if d.get("kind") == "build":
+        return d.get("types", 0) >= 3
     return d.get("kind") != "batch" or d.get("n", 0) >= 2
 
 
@@ -57,7 +67,13 @@ RULE = ("cases = every batch shape (size, failing position incl. none) of the bo
         "est-time construction / dispatch of 2-4 trains / speed-limit runs on the shipped simple corridor (four car types "
         "with non-round masses: HashMaps with 4 keys), set-speed runs, set-speed / speed-limit runs of Freight / Intermodal / "
         "Passenger trains on corridors whose links carry per-train-type speed_sets maps (2-3 keys per link), est-times + "
-        "dispatch of trains with 2-3 origin and 1-3 destination links (four in-process executions); every input executed twice in-process and once in a second process, every "
+        "dispatch of trains with 2-3 origin and 1-3 destination links (four in-process executions), consists of 3-7 "
+        "locomotives (all conventional / all battery / mixed) with pairwise different non-dyadic ratings, efficiencies, aux "
+        "and idle powers stepped 4-12 times with positive and negative demands and additionally executed inside rayon pools "
+        "of 1, 2, 4, 7 workers, trains of 3-5 car types with non-dyadic masses / rotating masses / resistances and 4-8 axles "
+        "built by TrainSimBuilder (set-speed / speed-limit) and additionally built 8 times from separately constructed equal "
+        "inputs (fresh Vec<RailVehicle>, fresh n_cars_by_type map filled in another insertion order); TLC emits a consist of "
+        "3..3+N locomotives and a train of 3-5 car types with every batch shape; every input executed twice in-process and once in a second process, every "
         "batch serially and 2-3 times under each rayon pool of 1, 2, 3, 8, 16 threads; distinct = distinct descriptors; "
         "non-trivial = whole-pipeline input or a batch of >= 2 elements")
 
@@ -89,7 +105,7 @@ GROUP = dict(
     nontrivial=nontrivial,
     rule=RULE,
     props={
-        "C18": dict(invariants=["SingleAssignment", "ElemSerial", "InputsUntouched", "ErrIsolated", "AllWalked",
+        "C18": dict(invariants=["SingleAssignment", "SingleAssignment@pool", "SingleAssignment@build", "ElemSerial", "InputsUntouched", "ErrIsolated", "AllWalked",
                                 "ParallelEqualsSerial", "BatchShape", "SoloInOrder", "NoPanic", "HarnessOk"],
                     assumptions=ASSUME, level="exploration", exhaustive=False),
     },
@@ -97,11 +113,17 @@ GROUP = dict(
     # Level-B variants of the batch walker that break isolation: TLC must find the interleaving
     fault_models=[dict(cfg="MCDeterminism_fault_shared.cfg", expect=["InputsUntouched", "ElemSerial", "ErrIsolated", "SingleAssignment"]),
                   dict(cfg="MCDeterminism_fault_shifted.cfg", expect=["ElemSerial", "AllWalked", "ErrIsolated"]),
-                  dict(cfg="MCDeterminism_fault_abortall.cfg", expect=["ErrIsolated", "ElemSerial", "SingleAssignment"])],
-    selftest_cases=20,
+                  dict(cfg="MCDeterminism_fault_abortall.cfg", expect=["ErrIsolated", "ElemSerial", "SingleAssignment"]),
+                  # reductions inside an element: chunked by the worker count / folded in the iteration order of a map
+                  dict(cfg="MCDeterminism_fault_parsum.cfg", expect=["ElemSerial", "SingleAssignment", "AllWalked", "ErrIsolated"]),
+                  dict(cfg="MCDeterminism_fault_maporder.cfg", expect=["InputsUntouched", "ElemSerial", "SingleAssignment"])],
+    selftest_cases=40,
     corrupt=CORRUPT,
     # (a --replay run has no model part and a single case: nothing to complain about)
     vacuity=lambda r: None if not r["models"] else ("no second-process run was recorded" if r["stats"].get("runs_proc2", 0) == 0 else
+                       # floors on cases ISSUED (4 pool / 8 rebuild lines belong to each of them)
+                       "fewer than 5 consists were stepped under the worker pools" if r["stats"].get("cases_pool", 0) < 5 else
+                       "fewer than 5 trains were rebuilt from fresh equal inputs" if r["stats"].get("cases_build", 0) < 5 else
                        "no parallel batch walk was recorded" if r["stats"].get("batches_par", 0) == 0 else
                        "no batch with a failing element was recorded" if r["stats"].get("batches_err", 0) == 0 else
                        "no batch without a failing element was recorded"
